@@ -73,6 +73,10 @@ def explore_cases(ctx, drv, interp):
         if ctx.left() < 25:
             break
         case = with_empty_constant(rng, i) if i % 4 == 1 else fp.gen_case(rng, i)
+        if i % 5 == 3:
+            # the INPUT model already keeps its constants outside the flatbuffer (written by the check's own two-pass writer)
+            case.mb = pl.to_external_form(case.mb)
+            case.info["tags"].add("input_in_external_form")
         os.environ.pop(ENVVAR, None)
         case.late = None   # this check re-runs quantize() itself; histories on the object are C14's subject
         res = fp.run_case(ctx, drv, case, graph_corr=False)
@@ -105,6 +109,28 @@ def explore_cases(ctx, drv, interp):
                              case.replay(), "modifier-reuse-differs")
             except (AttributeError, TypeError):
                 ctx.tag("modifier_reuse_not_drivable")
+            finally:
+                os.environ.pop(ENVVAR, None)
+        if i % 4 == 2 and case.recipe is None and case.cmds:
+            # one Quantizer object, an earlier large-path quantize() under ANOTHER recipe, then the case's recipe again
+            try:
+                from ai_edge_quantizer import quantizer as qmod
+                q2 = qmod.Quantizer(case.mb)
+                other = [{"k": "add", "regex": ".*", "operation": "*", "cfg": pl.UNIFORM["wo8"], "alg": "min_max_uniform_quantize"}]
+                pl.apply_recipe(q2, other)
+                os.environ[ENVVAR] = "0"
+                try:
+                    q2.quantize()
+                except Exception:  # noqa: BLE001
+                    pass
+                q2.load_quantization_recipe(copy.deepcopy(res["q"].get_quantization_recipe()))
+                again = bytes(q2.quantize(copy.deepcopy(res.get("cr"))).quantized_model)
+                ctx.tag("quantizer_reused_on_large_path")
+                if again != large:
+                    ctx.fail("the large-model file depends on an earlier quantize() of the same Quantizer under another recipe",
+                             case.replay(), "large-path-history-dependent")
+            except ValueError:
+                pass
             finally:
                 os.environ.pop(ENVVAR, None)
         ms = pl.read(small)
